@@ -43,6 +43,7 @@ DEFAULT_PROFILE = dict(
     li_label=True,           # li with label-dependent operands
     labelval_direct=True,    # label-dependent I/S/U immediates not wrapped in %lo/%hi
     max_gap=0,
+    chr_extra='',            # further characters for character literals (C11: the quote itself, # , ( ) " and the blank)
 )
 
 
@@ -286,7 +287,7 @@ class Builder:
                 return ir.CRef(n), self.cvals[n]
             if self.chance(0.15):
                 # character literals as operands of arithmetic ('a' + 'b' + 'c': several on one line)
-                ch = self.pick('AZaz09?!+-*/<>=_.:;@$%^&|~[]{}')
+                ch = self.pick('AZaz09?!+-*/<>=_.:;@$%^&|~[]{}' + self.p.get('chr_extra', ''))
                 return ir.Chr(ch), ord(ch)
             v = self.pick([0, 1, 2, 3, 4, 7, 8, 15, 16, 31, 32, 42, 255, 256, 0x7ff, 0x800, 0xfff, 0x1000, 0xffff,
                            0x40021000, 0x7fffffff, 0x80000000, 0xffffffff]) if self.chance(0.5) else self.i(0, 1 << 20)
@@ -337,7 +338,7 @@ class Builder:
             c = ir.ConstDef(name, reg=n)
             self.cvals[name] = ('reg', n)
         elif kind == 'chr':
-            ch = self.pick('AZaz09 ?!+-*/<>=_.:;@$%^&|~[]{}\t\t')     # (also a literal TAB between the quotes)
+            ch = self.pick('AZaz09 ?!+-*/<>=_.:;@$%^&|~[]{}\t\t' + self.p.get('chr_extra', ''))     # (also a literal TAB between the quotes)
             c = ir.ConstDef(name, value=ir.Chr(ch))
             self.cvals[name] = ord(ch)
         else:
